@@ -53,6 +53,8 @@ Grover(u) ==
 Balanced(u) == {S \in SUBSET Vals : 2 * Cardinality(S) = N}
 DJ(u) == {[kind |-> "dj", n |-> NB, form |-> fm, def |-> (IF fm = "bits" THEN FormBits(S) ELSE FormLookup(S))] :
          S \in Balanced(u) \cup {{}, Vals}, fm \in (IF NB = 1 THEN {"bits"} ELSE {"bits", "lookup"})}
+         \* the argument as a list of bools (the decoded all-zero outcome is then a tuple, not the number 0)
+         \cup (IF NB = 1 THEN {} ELSE {[kind |-> "dj", n |-> NB, form |-> "tuple", def |-> FormTuple(S)] : S \in Balanced(u) \cup {Vals}})
 
 SetSeqBits(s) == LET js == SetSeq({j \in 0..(NB - 1) : BitOf(s, j)}) IN [k \in 1..Len(js) |-> Sub(X, CI(js[k]))]
 XorAll(es) == LET RECURSIVE F(_) F(j) == IF j = Len(es) THEN es[j] ELSE Bin("BitXor", es[j], F(j + 1)) IN F(1)
